@@ -40,7 +40,7 @@ def run(ck):
                       "are compared with the model; the harness itself checks iterator stability, destroy-once, callback user data, allocator balance")
     ck.assumptions += ["the comparator is a total order (integers)"]
     if not ck.build_driver(): return
-    if not ck.prove(["ZixModel.Properties.C06", "ZixModel.Properties.C06History"]):
+    if not ck.prove(["ZixModel.Properties.C06", "ZixModel.Properties.C06History", "ZixModel.Properties.C06Iter"]):
         ck.report_proof_failure("theorems about the AVL model no longer build")
     exe = ck.cc("h_c06", ["h_c06.c", os.path.join(REPO, "src/allocator.c")])
     if not exe: return
